@@ -45,7 +45,8 @@ func Introspect(w http.ResponseWriter, r *http.Request, introspector Introspecto
 	}
 	err = introspector.Storage().SetIntrospectionFromToken(r.Context(), response, tokenID, subject, clientID)
 	if err != nil {
-		httphelper.MarshalJSON(w, response)
+		// the storage may already have written into response: answer with a fresh, inactive one
+		httphelper.MarshalJSON(w, new(oidc.IntrospectionResponse))
 		return
 	}
 	response.Active = true
